@@ -23,6 +23,7 @@ type VerifC10State struct {
 	ReaderID    string // identity of the open reader object
 	// walker wedge (see uio.VerifC10ReaderWedge)
 	WedgeLevel, WalkerDepth, BufLeft int
+	WedgeBelow                       uint64
 	Root                             string
 }
 
@@ -37,7 +38,7 @@ func VerifC10Snapshot(dm *DagModifier) VerifC10State {
 		root, st, off := uio.VerifC10ReaderState(dm.read)
 		s.ReaderOff = off
 		s.ReaderID = fmt.Sprintf("%p", dm.read)
-		s.WedgeLevel, s.WalkerDepth, s.BufLeft = uio.VerifC10ReaderWedge(dm.read)
+		s.WedgeLevel, s.WalkerDepth, s.BufLeft, s.WedgeBelow = uio.VerifC10ReaderWedge(dm.read)
 		s.Reader = st
 		s.ReaderStale = root != s.Root
 	}
